@@ -375,6 +375,9 @@ COMPONENTS = {
     "Bits-bits": ("bits", [], "Bits", "BitsTrace", "Trace.cfg"),
     "Bits-bitmap": ("bits", [], "Bits", "BitsTrace", "Trace.cfg"),
     "Bits-dsz": ("bits", [], "Bits", "BitsTrace", "Trace.cfg"),
+    "Heap-heap": ("heap", ["heapz"], "Heap", "HeapTrace", "Trace.cfg"),
+    "Heap-slice": ("heap", ["heapz"], "Heap", "HeapTrace", "Trace.cfg"),
+    "Heap-std": ("heap", ["heapz"], "Heap", "HeapTrace", "Trace.cfg"),
     "DList": ("dlist", [], "DList", "DListTrace", "Trace_thorough.cfg"),
     "SList": ("slist", [], "SList", "SListTrace", "Trace.cfg"),
 }
@@ -394,7 +397,7 @@ def generic_replay(ctx, rp):
     with open(f, "w") as fo:
         json.dump({"component": comp, "init": rp["init"], "ops": rp["ops"], "trace": []}, fo)
     renv = dict(GOENV)
-    if comp.startswith("Bits-"):
+    if comp.startswith("Bits-") or comp.startswith("Heap-"):
         renv["VERIF_FLAVOUR"] = comp.split("-", 1)[1]
     r = ctx.run([binp, "replay", "-file", f, "-out", ctx.out], timeout=600, env=renv)
     log(r.stdout[-4000:])
